@@ -13,7 +13,7 @@ RULE = (
     "vertices, edge mid-points, octant centre, RA-seam pair, near-pole points + 3 seed-chosen generic points) x "
     "radius alphabet (0, 1e-6, 1e-5, 1.5e-4, 0.015, 0.5, 1.5, 30, 90, 135, 180 deg + 1 seed-chosen) x depth "
     "(quick 1,2,4,7,10,13; thorough 1..13) x {centre against ring, ring against centre: maxmatch 0/1/3; ring "
-    "against itself}; the ring holds a bit-identical copy of the centre and points at separations {r/2, 0.9r, "
+    "against itself; centre against only the ring points beyond the radius (no pair, empty pair file)}; the ring holds a bit-identical copy of the centre and points at separations {r/2, 0.9r, "
     "r-2e-9, r+2e-9, 1.01r, 2r} (radius 0: {2e-9, 2e-7, 1e-4}) in 8 (24) bearings, computed in long double; "
     "routes HTM.match and Matcher.match.  "
     "sets: S = 142 points (the centres, an exact duplicate, 3 generic points, destination points at "
@@ -47,6 +47,8 @@ ASSUMPTIONS = [
     "non-decreasing",
     "file route == memory route: returned count == number of lines read, same set of index pairs, distances agree "
     "to 1e-9 deg (the file carries 16 significant digits); the result read back must itself pass the brute-force oracle",
+    "the pair file handed to every file route already exists and holds three stale lines: match(file=) must replace "
+    "the content ('gives the same pairs as the in-memory call' is read as holding for any target file)",
     "independence of depth and of route is decided by comparing every (depth, route) result with the same "
     "depth-free brute-force answer; results may therefore differ between depths/routes only in margin pairs and ties",
     "radius > 64 triangle widths at a depth is not enumerated (cost grows with the square of that ratio); radii 90, 135 "
@@ -234,6 +236,7 @@ def radius_max(radspec):
 
 
 POISON = -77.0
+STALE = "100000 100000 7.5\n" * 3     # content of a pair file left behind by some earlier match
 
 
 def as_variant(vals, variant):
@@ -456,8 +459,10 @@ def main(ctx):
         ra1, dec1 = c1
         ra2, dec2 = c2
         tofile = route.endswith("file")
-        if tofile and os.path.exists(fn):
-            os.unlink(fn)
+        if tofile:
+            # the file exists already and holds pairs of some earlier match: it must be replaced
+            with open(fn, "w") as f:
+                f.write(STALE)
         kw = dict(file=fn) if tofile else {}
         if route.startswith("oneshot"):
             out = htm.HTM(depth).match(ra1, dec1, ra2, dec2, rad, maxmatch=mm, **kw)
@@ -472,6 +477,9 @@ def main(ctx):
             raise _Fail("file-count", "match(file=) did not return the pair count: %r" % (count,))
         if not os.path.exists(fn):
             raise _Fail("file-missing", "match(file=) did not create the pair file")
+        with open(fn) as f:
+            if f.read(len(STALE)) == STALE:
+                raise _Fail("file-stale", "match(file=) kept the previous content of an existing pair file")
         try:
             p = htm.read_pairs(fn)
         except Exception as e:
@@ -535,16 +543,24 @@ def main(ctx):
     def one_ring(case, rec):
         centre, r, depth, direction, mm, nbear = case
         ring = ring_points(centre, r, nbear)
+        routes = ("oneshot-mem", "matcher-mem")
         if direction == "centre-vs-ring":
             p1, p2 = (centre,), ring
         elif direction == "ring-vs-centre":
             p1, p2 = ring, (centre,)
+        elif direction == "centre-vs-outside":
+            # only the ring points beyond the radius: nothing may be returned, the pair file is empty
+            D0 = dist_matrix((centre,), ring)[0][0]
+            p1, p2 = (centre,), tuple(p for p, s in zip(ring, D0) if s > r + MARGIN)
+            routes = ("matcher-mem", "matcher-file")
+            if not p2:
+                return rec.ok(case, outcome="centre-vs-outside/nothing-outside", nontrivial=False, calls=0)
         else:
             p1, p2 = ring, ring
         T = Truth(p1, p2, np.full(len(p1), r))
         c1 = (np.array([p[0] for p in p1]), np.array([p[1] for p in p1]))
         c2 = (np.array([p[0] for p in p2]), np.array([p[1] for p in p2]))
-        n = run_routes(case, rec, T, depth, c1, c2, r, mm, ("oneshot-mem", "matcher-mem"))
+        n = run_routes(case, rec, T, depth, c1, c2, r, mm, routes)
         if n is None:
             return
         rvec = T.r
@@ -566,11 +582,13 @@ def main(ctx):
                 yield (c, r, d, "centre-vs-ring", mm, nbear)
                 yield (c, r, d, "ring-vs-centre", mm, nbear)
             yield (c, r, d, "ring-vs-ring", 0, nbear)
+            yield (c, r, d, "centre-vs-outside", 0, nbear)
 
     ctx.lattice("rings", ring_units, one_ring, expand=expand_ring,
                 bounds=dict(centres=ring_centres, radii=ring_radii, depths=ring_depths, bearings=nbear,
                             ring_separations="0 (identical), r/2, 0.9r, r-2e-9, r+2e-9, 1.01r, 2r; radius 0: 0, 2e-9, 2e-7, 1e-4",
-                            maxmatch=[0, 1, 3], routes=["HTM.match", "Matcher.match"],
+                            maxmatch=[0, 1, 3],
+                            routes=["HTM.match", "Matcher.match", "Matcher.match(file=)+read_pairs (centre-vs-outside)"],
                             skipped="radius > %g triangle widths" % WIDTHS))
 
     # ------------------------------------------------------------------- sets
@@ -672,8 +690,7 @@ def main(ctx):
         ra1, dec1 = coords(p1)
         rad = radius_values(radspec, len(p1)) if isinstance(radspec, tuple) else radspec
         if route == "file":
-            if os.path.exists(fn):
-                os.unlink(fn)
+            # no clean-up in between: a later file event of the history overwrites the file of an earlier one
             cnt = M.match(ra1, dec1, rad, maxmatch=mm, file=fn)
             return read_back(cnt, fn), p1, radius_values(radspec, len(p1)), mm
         return M.match(ra1, dec1, rad, maxmatch=mm), p1, radius_values(radspec, len(p1)), mm
@@ -685,6 +702,9 @@ def main(ctx):
         p2 = subset(s2, g)
         ra2, dec2 = coords(p2)
         fn = os.path.join(rec.tmp, "c12h.pairs")
+        for f in (fn, fn + ".fresh"):
+            if os.path.exists(f):
+                os.unlink(f)
         try:
             M = htm.Matcher(depth0, ra2, dec2)
         except Exception as e:
